@@ -222,3 +222,11 @@ def parse_sim_file(path):
         k += 1
         res.append((label, tlaval.parse_state(body)))
     return res
+
+
+def describe(res, limit=6):
+    """violated property + the counter-example states, for error messages"""
+    out = ["%s %s violated after %d distinct states" % (res.kind, res.violated, res.distinct)]
+    for label, st in res.trace[-limit:]:
+        out.append("  <%s> %s" % (label, tlaval.to_json(st) if isinstance(st, dict) else st))
+    return "\n".join(out)
